@@ -186,14 +186,24 @@ theorem reqIdle_mu (a : Acc) (f : Frag) (ctrl : AppCtrl) (func : Nat)
     | prep s1 lr hk _ _ =>
       simp only [keepRd, Prod.mk.injEq] at hk
       exact ⟨hk.2.2.2.1, hk.2.2.2.2.2.2.2.2.2.1, hk.2.2.2.2.2.2.2.2.2.2.2.1, hk.2.2.2.2.2.2.2.2.2.2.1⟩
+    | echo s1 last hk _ _ _ _ =>
+      simp only [keepRd, Prod.mk.injEq] at hk
+      exact ⟨hk.2.2.2.1, hk.2.2.2.2.2.2.2.2.2.1, hk.2.2.2.2.2.2.2.2.2.2.2.1, hk.2.2.2.2.2.2.2.2.2.2.1⟩
   cases lr with
   | none => cases s2; exact r1
-  | some lr =>
-    rcases s2 with ⟨_, lr', e⟩ | ⟨r, a2, r2, lr', _, hw, e⟩
-    · subst e; exact r1
-    · subst e
-      have w := writeSolicited_mu _ _ _ _ _ hw
-      exact ⟨w.1.trans r1.1, w.2.1.trans r1.2.1, w.2.2.1.trans r1.2.2.1, w.2.2.2.2.2.2.trans r1.2.2.2⟩
+  | some p =>
+    obtain ⟨lr, echo⟩ := p
+    cases echo with
+    | false =>
+      rcases s2 with ⟨_, lr', e⟩ | ⟨r, a2, r2, lr', _, hw, e⟩
+      · subst e; exact r1
+      · subst e
+        have w := writeSolicited_mu _ _ _ _ _ hw
+        exact ⟨w.1.trans r1.1, w.2.1.trans r1.2.1, w.2.2.1.trans r1.2.2.1, w.2.2.2.2.2.2.trans r1.2.2.2⟩
+    | true =>
+      rcases s2 with ⟨_, e⟩ | ⟨r, _, e⟩
+      · subst e; exact r1
+      · subst e; exact r1
 
 theorem finishPass_mu (a : Acc) (n : NextIdle) :
     (∃ x, (finishPass a n).1.mode = .idle x) ∧ (finishPass a n).1.unsol = a.1.unsol ∧
@@ -278,7 +288,7 @@ theorem Ev.nu {pf : Option Frag} {a a' : Acc} (h : Ev pf a a') : NU pf a a' := b
   | unsolConf resp isNull retries dl f ctrl objs raw hm hq hu _ =>
     intro hi
     obtain ⟨_, _, l, e⟩ := hb
-    have hun : (afterUnsolSeries (emitCb ({ a.1 with lastBroadcast := none }, a.2)
+    have hun : (afterUnsolSeries (emitCb ({ a.1 with lastBroadcast := if a.1.unsolReported then none else a.1.lastBroadcast }, a.2)
         (.unsolConfirmed resp.ctrl.seq)) isNull true).1.1.unsol = .ready none := by
       unfold afterUnsolSeries
       split
@@ -294,10 +304,10 @@ theorem Ev.nu {pf : Option Frag} {a a' : Acc} (h : Ev pf a a') : NU pf a a' := b
     · intro _
       right
       refine ⟨⟨resp.ctrl.seq, ?_⟩, ⟨f, ctrl, objs, raw, hq.1, hq.2, hu⟩⟩
-      have hfr := afterUnsolSeries_frame (emitCb ({ a.1 with lastBroadcast := none }, a.2)
+      have hfr := afterUnsolSeries_frame (emitCb ({ a.1 with lastBroadcast := if a.1.unsolReported then none else a.1.lastBroadcast }, a.2)
         (.unsolConfirmed resp.ctrl.seq)) isNull true
       obtain ⟨_, l2, e2, _⟩ := hfr
-      have : (afterUnsolSeries (emitCb ({ a.1 with lastBroadcast := none }, a.2)
+      have : (afterUnsolSeries (emitCb ({ a.1 with lastBroadcast := if a.1.unsolReported then none else a.1.lastBroadcast }, a.2)
           (.unsolConfirmed resp.ctrl.seq)) isNull true).1.2 =
           a.2 ++ ([.cb (.unsolConfirmed resp.ctrl.seq)] ++ l2) := by
         rw [e2]; simp [emitCb, emit]
@@ -310,6 +320,7 @@ theorem Ev.nu {pf : Option Frag} {a a' : Acc} (h : Ev pf a a') : NU pf a a' := b
   | bcast f m ctrl func objs raw a' hq _ _ hp =>
     have w := processBroadcast_mu _ _ _ _ _ _ _ _ hp
     exact NU.same w.1 w.2.1 hb
+  | uwBcastSeen resp isNull retries dl f m ctrl func objs raw _ _ _ _ _ => exact NU.same rfl rfl hb
   | nonRead f ctrl func hs raw a' r hq _ _ _ hn =>
     have w := handleNonRead_mu _ _ _ _ _ _ _ _ hn
     exact NU.same w.1 w.2.1 hb
@@ -549,7 +560,7 @@ theorem unsolWaitOnFragment_phase {pf : Option Frag} (a : Acc) (resp : Resp) (is
       · simp only [List.mem_singleton] at h; subst h; simp [OOut.kind]
   cases p with
   | nothing => exact Or.inl ⟨_, rfl, q1, rfl⟩
-  | error src seq =>
+  | error src bc seq =>
     dsimp only
     split
     · exact Or.inr (Or.inl (pan _ q1))
@@ -558,6 +569,8 @@ theorem unsolWaitOnFragment_phase {pf : Option Frag} (a : Acc) (resp : Resp) (is
       refine ⟨a', rfl, ?_⟩
       have q2 : Quiet resp isNull a ({ s with pending := none, deferred := none }, a.2) := q0.state _ hh.mode
       unfold writeErrorResponse at hw
+      split at hw
+      · cases hw; exact ⟨q2, rfl⟩
       split at hw
       · cases hw; exact ⟨q2, rfl⟩
       · split at hw
@@ -589,7 +602,8 @@ theorem unsolWaitOnFragment_phase {pf : Option Frag} (a : Acc) (resp : Resp) (is
       · right; right
         refine ⟨_, true, rfl, ?_, ?_⟩
         · have hfr := afterUnsolSeries_frame (emitCb ({ onLinkActivity { s with pending := none } with
-            lastBroadcast := none }, a.2) (.unsolConfirmed seq)) isNull true
+            lastBroadcast := if (onLinkActivity { s with pending := none }).unsolReported then none
+              else (onLinkActivity { s with pending := none }).lastBroadcast }, a.2) (.unsolConfirmed seq)) isNull true
           obtain ⟨_, l2, e2, hp2⟩ := hfr
           refine ⟨[.cb (.unsolConfirmed seq)] ++ l2, by rw [e2]; simp [emitCb, emit], ?_, Or.inl ⟨seq, by simp⟩⟩
           intro o ho
@@ -597,7 +611,8 @@ theorem unsolWaitOnFragment_phase {pf : Option Frag} (a : Acc) (resp : Resp) (is
           · simp only [List.mem_singleton] at h; subst h; simp [OOut.kind, Cb.kind]
           · intro hk; have : OOut.kind o ∈ [OKind.confirm] := hp2 o h; rw [hk] at this; simp at this
         · refine Base.trans (b := emitCb ({ onLinkActivity { s with pending := none } with
-            lastBroadcast := none }, a.2) (.unsolConfirmed seq)) ?_ ?_
+            lastBroadcast := if (onLinkActivity { s with pending := none }).unsolReported then none
+              else (onLinkActivity { s with pending := none }).lastBroadcast }, a.2) (.unsolConfirmed seq)) ?_ ?_
           · exact Base.trans hbase2 ⟨rfl, Or.inl rfl, _, rfl⟩
           · exact Base.ofFrame ((afterUnsolSeries_frame _ _ _).weaken kS_of_kR')
       · exact Or.inl ⟨_, rfl, q2, rfl⟩
@@ -618,7 +633,7 @@ theorem unsolWaitOnFragment_phase {pf : Option Frag} (a : Acc) (resp : Resp) (is
         have fr := (processBroadcast_frame _ _ _ _ _ _ _ _ hp).1
         have k := fr.1
         simp only [keepBC, Prod.mk.injEq] at k
-        exact ⟨a', rfl, q3.step w.1 fr (by simp), k.2.2.2.2.2.2.2.2.2.2.2.2.1⟩
+        exact ⟨_, rfl, (q3.step w.1 fr (by simp)).state _ rfl, k.2.2.2.2.2.2.2.2.2.2.2.2.1⟩
     · -- malformed
       split
       · exact Or.inr (Or.inl (pan _ q2))
@@ -899,16 +914,28 @@ theorem reqIdle_calm (a : Acc) (f : Frag) (ctrl : AppCtrl) (func : Nat)
     | prep s1 lr hk _ _ =>
       simp only [keepRd, Prod.mk.injEq] at hk
       exact Calm.state _ _ hk.2.2.2.2.2.2.2.2.2.1 (Or.inl hk.2.2.2.1)
+    | echo s1 last hk _ _ _ _ =>
+      simp only [keepRd, Prod.mk.injEq] at hk
+      exact Calm.state _ _ hk.2.2.2.2.2.2.2.2.2.1 (Or.inl hk.2.2.2.1)
   refine Calm.trans r1 ?_
   cases lr with
   | none => cases s2; exact Calm.refl _
-  | some lr =>
-    rcases s2 with ⟨_, lr', e⟩ | ⟨r, a2, r2, lr', _, hw, e⟩
-    · subst e; exact Calm.state _ _ rfl (Or.inl rfl)
-    · subst e
-      have w := writeSolicited_mu _ _ _ _ _ hw
-      exact Calm.trans (Calm.ofFrame (writeSolicited_frame _ _ _ _ _ hw) w.2.1 (Or.inl w.1) (by simp))
-        (Calm.state _ _ rfl (Or.inl rfl))
+  | some p =>
+    obtain ⟨lr, echo⟩ := p
+    cases echo with
+    | false =>
+      rcases s2 with ⟨_, lr', e⟩ | ⟨r, a2, r2, lr', _, hw, e⟩
+      · subst e; exact Calm.state _ _ rfl (Or.inl rfl)
+      · subst e
+        have w := writeSolicited_mu _ _ _ _ _ hw
+        exact Calm.trans (Calm.ofFrame (writeSolicited_frame _ _ _ _ _ hw) w.2.1 (Or.inl w.1) (by simp))
+          (Calm.state _ _ rfl (Or.inl rfl))
+    | true =>
+      rcases s2 with ⟨_, e⟩ | ⟨r, _, e⟩
+      · subst e; exact Calm.state _ _ rfl (Or.inl rfl)
+      · subst e
+        exact Calm.trans (Calm.ofFrame (repeatSolicited_frame _ _ _) rfl (Or.inl rfl) (by simp))
+          (Calm.state _ _ rfl (Or.inl rfl))
 
 /-- every event is calm, or belongs to an unsolicited confirm wait, or is a series start by `checkUnsolicited` -/
 theorem Ev.calm {pf : Option Frag} {a a' : Acc} (h : Ev pf a a') :
@@ -973,6 +1000,7 @@ theorem Ev.calm {pf : Option Frag} {a a' : Acc} (h : Ev pf a a') :
   | bcast f m ctrl func objs raw a' hq _ _ hp =>
     have w := processBroadcast_mu _ _ _ _ _ _ _ _ hp
     exact Or.inl (Calm.ofFrame (processBroadcast_frame _ _ _ _ _ _ _ _ hp).1 w.2.1 (Or.inl w.1) (by simp))
+  | uwBcastSeen resp isNull retries dl f m ctrl func objs raw hm _ _ _ _ => exact Or.inr (Or.inl ⟨_, _, _, _, hm⟩)
   | nonRead f ctrl func hs raw a' r hq _ _ _ hn =>
     have w := handleNonRead_mu _ _ _ _ _ _ _ _ hn
     exact Or.inl (Calm.ofFrame ((handleNonRead_frame _ _ _ _ _ _ _ _ hn).mono NRP_kind) w.2.1 (Or.inl w.1) (by simp))
@@ -1259,6 +1287,7 @@ theorem deferred_only_changed_by {pf : Option Frag} {a a' : Acc} (h : Ev pf a a'
   | unsolConf resp isNull retries dl f ctrl objs raw _ _ _ _ => left; rw [afterUnsolSeries_deferred]; rfl
   | uwSolConfirm resp isNull retries dl f ctrl objs raw _ _ _ => left; split <;> rfl
   | bcast f m ctrl func objs raw a' hq _ _ hp => exact Or.inl (processBroadcast_mu _ _ _ _ _ _ _ _ hp).2.2.1
+  | uwBcastSeen resp isNull retries dl f m ctrl func objs raw _ _ _ _ _ => exact Or.inl rfl
   | nonRead f ctrl func hs raw a' r hq _ _ _ hn => exact Or.inl (handleNonRead_mu _ _ _ _ _ _ _ _ hn).2.2.1
   | uwDisable resp isNull retries dl f ctrl hs raw _ _ => left; rw [afterUnsolSeries_deferred]
   | deferSet f ctrl hs raw hq hb => exact Or.inr (Or.inr (Or.inl ⟨f, ctrl, hs, raw, hq, hb, rfl⟩))
@@ -1601,14 +1630,24 @@ theorem reqIdle_enr {pf : Option Frag} (a : Acc) (f : Frag) (ctrl : AppCtrl) (fu
     | prep s1 lr hk _ _ =>
       simp only [keepRd, Prod.mk.injEq] at hk
       left; simp only [EnOf, Prod.mk.injEq]; exact ⟨hk.2.2.2.2.2.1, hk.2.2.2.2.2.2.1, hk.2.2.2.2.2.2.2.1⟩
+    | echo s1 last hk _ _ _ _ =>
+      simp only [keepRd, Prod.mk.injEq] at hk
+      left; simp only [EnOf, Prod.mk.injEq]; exact ⟨hk.2.2.2.2.2.1, hk.2.2.2.2.2.2.1, hk.2.2.2.2.2.2.2.1⟩
   refine ENR.trans r1 ?_
   cases lr with
   | none => cases s2; exact ENR.refl _ _
-  | some lr =>
-    rcases s2 with ⟨_, lr', e⟩ | ⟨r, a2, r2, lr', _, hw, e⟩
-    · subst e; exact Or.inl rfl
-    · subst e
-      exact ENR.trans (enr_of_kR (writeSolicited_frame _ _ _ _ _ hw).1) (Or.inl rfl)
+  | some p =>
+    obtain ⟨lr, echo⟩ := p
+    cases echo with
+    | false =>
+      rcases s2 with ⟨_, lr', e⟩ | ⟨r, a2, r2, lr', _, hw, e⟩
+      · subst e; exact Or.inl rfl
+      · subst e
+        exact ENR.trans (enr_of_kR (writeSolicited_frame _ _ _ _ _ hw).1) (Or.inl rfl)
+    | true =>
+      rcases s2 with ⟨_, e⟩ | ⟨r, _, e⟩
+      · subst e; exact Or.inl rfl
+      · subst e; exact Or.inl rfl
 
 /-- every event leaves the class enables alone unless the step's fragment is ENABLE / DISABLE_UNSOLICITED -/
 theorem Ev.enr {pf : Option Frag} {a a' : Acc} (h : Ev pf a a') : ENR pf a a' := by
@@ -1633,10 +1672,12 @@ theorem Ev.enr {pf : Option Frag} {a a' : Acc} (h : Ev pf a a') : ENR pf a a' :=
   | solConf sr dl c f ctrl objs raw _ _ _ _ => left; rw [clearWrittenEvents_eq]; rfl
   | fmtRead fir seq iin2 => exact Or.inl rfl
   | unsolConf resp isNull retries dl f ctrl objs raw _ _ _ _ =>
-    exact ENR.trans (b := emitCb ({ a.1 with lastBroadcast := none }, a.2) (.unsolConfirmed resp.ctrl.seq))
+    exact ENR.trans (b := emitCb ({ a.1 with lastBroadcast := if a.1.unsolReported then none else a.1.lastBroadcast }, a.2)
+        (.unsolConfirmed resp.ctrl.seq))
       (Or.inl rfl) (enr_of_kR' (afterUnsolSeries_frame _ _ _).1)
   | uwSolConfirm resp isNull retries dl f ctrl objs raw _ _ _ => left; split <;> rfl
   | bcast f m ctrl func objs raw a' hq _ _ hp => exact processBroadcast_enr _ _ _ _ _ _ _ _ hq hp
+  | uwBcastSeen resp isNull retries dl f m ctrl func objs raw _ _ _ _ _ => exact Or.inl rfl
   | nonRead f ctrl func hs raw a' r hq _ _ _ hn => exact handleNonRead_enr _ _ _ _ _ _ _ _ hq hn
   | uwDisable resp isNull retries dl f ctrl hs raw _ _ => exact enr_of_kR' (afterUnsolSeries_frame _ _ _).1
   | deferSet f ctrl hs raw _ _ => exact Or.inl rfl
